@@ -178,12 +178,15 @@ def diffusion_and_forcing_conservation_form(K, dim):
 
 
 @unit("conservation_on_small_grids", props=("C04",), kernels=True,
-      configs=[dict(dim=2, shape=(9, 10)), dict(dim=2, shape=(11, 9)), dict(dim=3, shape=(9, 9, 10))],
+      configs=[dict(dim=2, shape=(9, 10)), dict(dim=2, shape=(11, 9)), dict(dim=3, shape=(9, 9, 10))]
+      + [dict(dim=d, shape=s, pattern=p, _tier="thorough") for d, s in ((2, (9, 10)), (2, (10, 12)), (3, (9, 10, 9)))
+         for p in ("neg", "alt", "alt2")],
       desc="bounded shapes, all values: grid sum of the update vanishes for support margin >= reach")
-def conservation_on_small_grids(K, dim, shape):
+def conservation_on_small_grids(K, dim, shape, pattern="pos"):
     """Concrete small extents, symbolic values: the telescoping lemma M1 instantiated exhaustively.
     Transported field supported in the cells at distance >= 4 from the boundary (reach 2 of the ENO3 face flux + the 2-cell non-updated ring),
     arbitrary velocity everywhere."""
+    shape = tuple(shape)
     axes = AXES[dim]
     m = 4  # reach of the ENO3 face fluxes (2) + width of the non-updated ring (2)
 
@@ -200,9 +203,20 @@ def conservation_on_small_grids(K, dim, shape):
     # fix the upwind direction pattern by a sign assumption on the velocity (one of the patterns;
     # the per-cell branch identity for ALL patterns is advection_flux_conservation_form)
     import itertools as it
+    # pattern: "pos"/"neg": every velocity component positive / negative; "alt"/"alt2": the upwind direction of a face
+    # (sign of the sum of the two adjacent velocities, as the kernels test it) alternates with the face index
     for idx in it.product(*[range(n) for n in shape]):
         for d in range(dim):
-            K.requires(K.old(v, (d,) + idx) > 0)
+            ax = dim - 1 - d  # array axis of velocity component d (x is the last axis)
+            if pattern == "pos":
+                K.requires(K.old(v, (d,) + idx) > 0)
+            elif pattern == "neg":
+                K.requires(K.old(v, (d,) + idx) < 0)
+            elif idx[ax] + 1 < shape[ax]:
+                nb = idx[:ax] + (idx[ax] + 1,) + idx[ax + 1:]
+                face_sum = K.old(v, (d,) + idx) + K.old(v, (d,) + nb)
+                up = (idx[ax] + (sum(idx) if pattern == "alt2" else 0)) % 2 == 0
+                K.requires(face_sum > 0 if up else face_sum < 0)
     K.run(adv, field=f, advection_flux=flux, velocity=v, dt_by_dx=a)
     K.run(dif, field=f, diffusion_flux=flux, nu_dt_by_dx2=b)
     total_new = sum(K.value(f, idx) for idx in it.product(*[range(n) for n in shape]))
@@ -220,6 +234,7 @@ def filter_conservation_on_small_grids(K, filter_type, order, shape):
     `order` passes of the 3-point 1-D filter + the zeroed ring of the flux buffer); prior content of both work buffers
     arbitrary (they are scratch arrays shared between operators)."""
     import itertools as it
+    shape = tuple(shape)
     m = order + 1
 
     def supp(idx):
